@@ -560,8 +560,20 @@ def _r25(ctx, prog, M, T):
         mp[kv] = cv
     ctx.count("registry_rows", len(mp))
     # registration loop must exist
-    src = init.src
-    if "PartFactory.part_type_for.update(content_type_to_part_class_map)" not in src.replace("\n", ""):
+    installed = False
+    for n_ in ast.walk(init.tree):
+        # PartFactory.part_type_for.update(<map>)  /  PartFactory.part_type_for = <map>  /  for k, v in <map>.items(): part_type_for[k] = v
+        if isinstance(n_, ast.Call) and isinstance(n_.func, ast.Attribute) and n_.func.attr == "update" \
+                and (dotted(n_.func.value) or "").endswith("part_type_for") and n_.args and dotted(n_.args[0]) == "content_type_to_part_class_map":
+            installed = True
+        if isinstance(n_, ast.Assign) and any((dotted(t) or "").endswith("part_type_for") for t in n_.targets) \
+                and "content_type_to_part_class_map" in ast.unparse(n_.value):
+            installed = True
+        if isinstance(n_, ast.For) and "content_type_to_part_class_map" in ast.unparse(n_.iter) and any(
+                isinstance(x, ast.Assign) and isinstance(x.targets[0], ast.Subscript) and (dotted(x.targets[0].value) or "").endswith("part_type_for")
+                for x in ast.walk(n_)):
+            installed = True
+    if not installed:
         ctx.violation("R2.5", "registration", "content_type_to_part_class_map is not installed into PartFactory.part_type_for",
                       file=init.relpath, line=1)
     else:
